@@ -42,3 +42,20 @@ Example C06_example :
     completeb s1 = true /\ completeb s2 = true /\
     min_by_key (received s1) = min_by_key (received s2) /\ min_by_key (received s1) = nth_error ex_trials 2.
 Proof. eexists. eexists. split; [vm_compute; reflexivity|]. split; [vm_compute; reflexivity|]. vm_compute. auto. Qed.
+
+(* ================================================================ the frames of an animation *)
+From OxiVerif Require Import Model.Types Model.Options Model.Headers Model.PngData Model.Optimize Proofs.FramesIndependent.
+
+(* the result for frame k is a function of frame k, its position and the oracles' answers for that frame alone: nothing a schedule
+   (or another frame's failure) could influence *)
+Theorem C06_frames_pointwise : forall e o hd f fs i fs',
+  recompress_frames_go e o hd f i fs = Ok fs' ->
+  length fs' = length fs /\ forall k fr, nth_error fs k = Some fr -> exists fr', nth_error fs' k = Some fr' /\ frame_result e o hd f (i + k) fr = Ok fr'.
+Proof. exact recompress_frames_pointwise. Qed.
+Print Assumptions C06_frames_pointwise.
+
+Theorem C06_frames_error_is_local : forall e o hd f fs i,
+  (forall fs', recompress_frames_go e o hd f i fs <> Ok fs') ->
+  exists k fr, nth_error fs k = Some fr /\ forall fr', frame_result e o hd f (i + k) fr <> Ok fr'.
+Proof. exact recompress_frames_error_is_local. Qed.
+Print Assumptions C06_frames_error_is_local.
